@@ -594,6 +594,7 @@ func parseWKT(tn string, toks []wtok, counts []int) string {
 func checkC17(c *Ctx) {
 	c.Rule("C17.R1", "the text emitted for each supported type, with 1, 2 and 3 members at every nesting level, is accepted by the OGC WKT grammar (KEYWORD ( … ), members parenthesised and comma-separated, 'x y' pairs) and lists every coordinate once in storage order")
 	c.Rule("C17.R2", "every strconv float formatting in the package uses precision -1, bit size 64 and a format in {e,E,f,g,G} (shortest text that parses back to the same float64)")
+	c.Rule("C17.R4", "the text Encode returns is freshly allocated in the call (no package-level buffer, no sync.Pool object), so a text the caller keeps is not overwritten by a later Encode")
 	c.Rule("C17.R3", "exactly Point, LineString, MultiLineString, Polygon and MultiPolygon are encoded; every other type reaches the error return")
 	p := c.P.Pkg("encoding/wkt")
 	enc := c.P.Func("encoding/wkt", "Encode")
@@ -763,6 +764,8 @@ func checkC17(c *Ctx) {
 	// any fmt-based float formatting would be outside the model
 	c.Floor("C17.R1", 5)
 	c.Floor("C17.R2", 2)
+	checkFreshResult(c, "C17.R4", c.P.Func("encoding/wkt", "Encode"))
+	c.Floor("C17.R4", 1)
 	c.Floor("C17.R3", 6)
 	c.exhaust = false
 }
